@@ -309,6 +309,51 @@ func c16Special() []refTree {
 				{Position: "nested:Site.r", Kind: "schema", Shape: "external-refers-back-inside-a-root-component", Ref: "../root.json#/components/schemas/RootT/properties/id", Marker: "MARKROOTID"},
 				{Position: "nested:Site.next", Kind: "schema", Shape: "external-refers-back-inside-a-root-component", Ref: "../root.json#/components/schemas/RootT/properties/tags/items", Marker: "MARKROOTTAG"},
 			})
+		// (g1) an external schema first reached through a root-local reference from a NON-schema component, the root schema
+		// being only an alias of the external one; the external schema refers to a sibling of its own file, of which the root
+		// has a same-named decoy
+		root = refRootSkeleton()
+		dig(root, "components", "schemas")["Alias"] = gen.S{"$ref": "shared/types.json#/components/schemas/Sizes"}
+		dig(root, "components", "schemas")["Unit"] = gen.S{"type": "string", "title": "DECOYROOTUNIT"}
+		dig(root, "components", "parameters")["P"] = gen.S{"name": "sizes", "in": "query", "schema": gen.S{"$ref": "#/components/schemas/Alias"}}
+		dig(root, "paths", "/op1", "post")["parameters"] = gen.Arr(gen.S{"$ref": "#/components/parameters/P"})
+		mk(rootPath, root, map[string]gen.S{dir + "/shared/types.json": lib("types", gen.S{
+			"Sizes": gen.S{"type": "array", "title": "MARKSIZES", "items": gen.S{"$ref": "#/components/schemas/Unit"}}, "Unit": gen.S{"type": "integer", "title": "MARKEXTUNIT"}})},
+			[]refPlan{
+				{Position: "nestedpath:Alias", Kind: "schema", Shape: "alias-of-external-reached-first-from-a-parameter", Ref: "shared/types.json#/components/schemas/Sizes", Marker: "MARKSIZES"},
+				{Position: "nestedpath:Alias/[]", Kind: "schema", Shape: "alias-of-external-reached-first-from-a-parameter", Ref: "#/components/schemas/Unit", Marker: "MARKEXTUNIT"},
+			})
+		// (g2) the same through a schema that sorts before the alias
+		root = refRootSkeleton()
+		dig(root, "components", "schemas")["A"] = gen.S{"type": "object", "title": "MARKROOTA", "properties": gen.S{"b": gen.S{"$ref": "#/components/schemas/B"}}}
+		dig(root, "components", "schemas")["B"] = gen.S{"$ref": "ext.json#/components/schemas/X"}
+		mk(rootPath, root, map[string]gen.S{dir + "/ext.json": lib("ext", gen.S{
+			"X": gen.S{"type": "object", "title": "MARKEXTX", "properties": gen.S{"y": gen.S{"$ref": "#/components/schemas/Y"}}}, "Y": gen.S{"type": "string", "title": "MARKEXTY"}})},
+			[]refPlan{
+				{Position: "nestedpath:A/b", Kind: "schema", Shape: "alias-of-external-reached-first-from-an-earlier-schema", Ref: "#/components/schemas/B", Marker: "MARKEXTX"},
+				{Position: "nestedpath:B/y", Kind: "schema", Shape: "alias-of-external-reached-first-from-an-earlier-schema", Ref: "#/components/schemas/Y", Marker: "MARKEXTY"},
+				{Position: "nestedpath:A/b/y", Kind: "schema", Shape: "alias-of-external-reached-first-from-an-earlier-schema", Ref: "#/components/schemas/Y", Marker: "MARKEXTY"},
+			})
+		// (g3) two libraries whose names differ in a dotted middle part, offering the same component name
+		root = refRootSkeleton()
+		dig(root, "components", "schemas")["Arr"] = gen.S{"type": "array", "items": gen.S{"$ref": "schemas.v1.json#/components/schemas/Pet"}}
+		dig(root, "components", "schemas", "Holder", "properties")["p"] = gen.S{"$ref": "schemas.v2.json#/components/schemas/Pet"}
+		mk(rootPath, root, map[string]gen.S{dir + "/schemas.v1.json": lib("v1", gen.S{"Pet": gen.S{"type": "string", "title": "MARKPETV1"}}), dir + "/schemas.v2.json": lib("v2", gen.S{"Pet": gen.S{"type": "integer", "title": "MARKPETV2"}})},
+			[]refPlan{
+				{Position: "schema.items", Kind: "schema", Shape: "file-names-differing-in-a-dotted-part", Ref: "schemas.v1.json#/components/schemas/Pet", Marker: "MARKPETV1"},
+				{Position: "schema.properties.p", Kind: "schema", Shape: "file-names-differing-in-a-dotted-part", Ref: "schemas.v2.json#/components/schemas/Pet", Marker: "MARKPETV2"},
+			})
+		// (g4) an external schema with a discriminator whose mapping names siblings of its own file
+		root = refRootSkeleton()
+		dig(root, "paths", "/op2", "post", "requestBody", "content", "application/json")["schema"] = gen.S{"$ref": "zoo.json#/components/schemas/Animal"}
+		dig(root, "components", "schemas")["Site"] = gen.S{"$ref": "zoo.json#/components/schemas/Animal"}
+		animal := func(k string) gen.S {
+			return gen.S{"type": "object", "title": "MARK" + strings.ToUpper(k), "required": gen.Arr("kind"), "properties": gen.S{"kind": gen.S{"type": "string"}, k: gen.S{"type": "string"}}, "additionalProperties": false}
+		}
+		mk(rootPath, root, map[string]gen.S{dir + "/zoo.json": lib("zoo", gen.S{"Cat": animal("cat"), "Dog": animal("dog"),
+			"Animal": gen.S{"title": "MARKANIMAL", "oneOf": gen.Arr(gen.S{"$ref": "#/components/schemas/Cat"}, gen.S{"$ref": "#/components/schemas/Dog"}),
+				"discriminator": gen.S{"propertyName": "kind", "mapping": gen.S{"cat": "#/components/schemas/Cat", "dog": "#/components/schemas/Dog"}}}})},
+			[]refPlan{{Position: "components.schemas.Site", Kind: "schema", Shape: "external-discriminator-mapping", Ref: "zoo.json#/components/schemas/Animal", Marker: "MARKANIMAL"}})
 		// (f) one external library offering the same name in every component collection: they are different objects
 		root = refRootSkeleton()
 		dig(root, "components", "schemas")["Site"] = gen.S{"$ref": "common.json#/components/schemas/Pet"}
@@ -468,7 +513,7 @@ func c16Tree(c *core.Ctx, t refTree) {
 		var a, b string
 		var r, f bool
 		core.Guard(func() {
-			if strings.HasPrefix(pl.Position, "nested:") {
+			if strings.HasPrefix(pl.Position, "nested") {
 				a, b, r, f = c16Nested(doc, pl.Position)
 			} else {
 				a, b, r, f = positions[pl.Position].get(doc)
@@ -578,6 +623,63 @@ func c16Tree(c *core.Ctx, t refTree) {
 	if c.WantSample() && len(t.Plans) > 2 && len(out) < 3000 {
 		c.Sample(map[string]any{"root": t.Root, "plans": t.Plans, "internalized": json.RawMessage(outB), "resolver_calls": calls})
 	}
+	// second step on the SAME document object: the application adds a reference to one more external file below a schema that
+	// exists already, has the loader resolve it, and internalises again
+	holder := d.Components.Schemas["Holder"]
+	if holder == nil || holder.Value == nil {
+		return
+	}
+	dir := path.Dir(t.Root)
+	rd.files[path.Join(dir, "added/extra.json")] = mustJSON(gen.S{"openapi": "3.0.3", "info": gen.S{"title": "extra", "version": "1"}, "paths": gen.S{},
+		"components": gen.S{"schemas": gen.S{"X": gen.S{"type": "object", "title": "MARKADDED", "properties": gen.S{"y": gen.S{"$ref": "#/components/schemas/Y"}}}, "Y": gen.S{"type": "string", "title": "MARKADDEDY"}}}})
+	if holder.Value.Properties == nil {
+		holder.Value.Properties = openapi3.Schemas{}
+	}
+	holder.Value.Properties["added"] = &openapi3.SchemaRef{Ref: "added/extra.json#/components/schemas/X"}
+	var rerr error
+	if pi := core.Guard(func() { rerr = l.ResolveRefsIn(d, &url.URL{Path: t.Root}) }); pi != nil || rerr != nil {
+		c.Cover("second_step", "added reference not resolved (C02's business)")
+		return
+	}
+	c.Eval()
+	if pi := core.Guard(func() { d.InternalizeRefs(context.Background(), nil) }); pi != nil {
+		f := core.PanicFeatures(pi)
+		f["stage"] = "InternalizeRefs (second call)"
+		c.Violate(f, mkW(&first, "", pi.Value, "no panic"), desc+"\n"+pi.Value)
+		return
+	}
+	c.Cover("second_step", "internalised again after adding a reference")
+	out2, err := json.Marshal(d)
+	if err != nil {
+		return
+	}
+	var tree2 any
+	json.Unmarshal(out2, &tree2)
+	var refs2 []string
+	collectRefStrings(tree2, &refs2)
+	for _, r := range refs2 {
+		if !strings.HasPrefix(r, "#/components/") {
+			f := feat("external_ref_remains")
+			f["history"] = "second InternalizeRefs on the same document"
+			c.Violate(f, mkW(&first, string(out2), r, "#/components/..."), fmt.Sprintf("%s\nafter adding a reference and internalising the same document again, $ref %q remains", desc, r))
+			return
+		}
+	}
+	l3 := openapi3.NewLoader()
+	l3.ReadFromURIFunc = func(_ *openapi3.Loader, u *url.URL) ([]byte, error) { return nil, fmt.Errorf("nothing may be read: %s", u) }
+	d3, err := l3.LoadFromData(out2)
+	if err != nil {
+		f := feat("internalized_document_does_not_reload")
+		f["history"] = "second InternalizeRefs on the same document"
+		c.Violate(f, mkW(&first, string(out2), err.Error(), "loads"), desc+"\nreload after the second step: "+err.Error())
+		return
+	}
+	if h := d3.Components.Schemas["Holder"]; h == nil || h.Value == nil || h.Value.Properties["added"] == nil || h.Value.Properties["added"].Value == nil || h.Value.Properties["added"].Value.Title != "MARKADDED" ||
+		h.Value.Properties["added"].Value.Properties["y"] == nil || h.Value.Properties["added"].Value.Properties["y"].Value == nil || h.Value.Properties["added"].Value.Properties["y"].Value.Title != "MARKADDEDY" {
+		f := feat("site_lost_after_internalize")
+		f["history"] = "second InternalizeRefs on the same document"
+		c.Violate(f, mkW(&first, string(out2), "Holder.added does not resolve to the added object", "MARKADDED / MARKADDEDY"), desc)
+	}
 }
 
 // c16Traffic validates a fixed set of requests/responses and returns the verdict string.
@@ -589,7 +691,7 @@ func c16Traffic(d *openapi3.T) string {
 			sb.WriteString("router:" + err.Error())
 			return
 		}
-		bodies := []string{`{}`, `{"recordId":7}`, `{"recordId":"x"}`, `{"p":{"a":1}}`, `"s"`, `[1]`, `7`}
+		bodies := []string{`{}`, `{"recordId":7}`, `{"recordId":"x"}`, `{"p":{"a":1}}`, `"s"`, `[1]`, `7`, `{"kind":"cat","cat":"x"}`, `{"kind":"dog","cat":"x"}`, `{"kind":"bird"}`}
 		for _, target := range []string{"http://h.t/op1", "http://h.t/op2", "http://h.t/op2?psch=a&pex=3", "http://h.t/pi"} {
 			for _, b := range bodies {
 				hdr := http.Header{"Content-Type": []string{"application/json"}}
